@@ -186,6 +186,11 @@ func (g *gen) body(depth, n, self int) []byte {
 				o.Require = true
 			}
 			a.Call(kind, to, o)
+			if r.Intn(4) == 0 {
+				// the same call once more: the callee runs again on what its first run left behind in this transaction
+				// (written slots, a self-destruct mark, warm addresses)
+				a.Call(kind, to, o)
+			}
 		case k < 84 && depth < 2:
 			var salt *uint64
 			if r.Intn(2) == 0 {
@@ -365,6 +370,20 @@ func one(out *trace.W, r *rand.Rand, tid string, ntx int, stats map[string]int) 
 	g.targets = append(g.targets, common.BytesToAddress([]byte{2}), common.BytesToAddress([]byte{4}))
 	for i := 0; i < nk; i++ {
 		gc := chain.GenContract{Addr: kaddr(i), Code: g.body(0, 3+r.Intn(6), i), Bal: int64(r.Intn(50)), Storage: map[common.Hash]common.Hash{}}
+		if i == nk-1 && r.Intn(2) == 0 {
+			// reads and writes its (committed, non-zero) storage, then self-destructs: a second call in the same
+			// transaction does the same on an account already marked destroyed
+			pre := asm.New()
+			for n := 1 + r.Intn(3); n > 0; n-- {
+				if r.Intn(3) == 0 {
+					pre.PushU(uint64(r.Intn(NSlots))).Op(asm.SLOAD)
+					g.storeTop(pre)
+				} else {
+					pre.SStore(uint64(r.Intn(NSlots)), uint64(r.Intn(3)))
+				}
+			}
+			gc.Code = pre.SelfDestruct(g.anyAddr()).Bytes()
+		}
 		for s := 0; s < NSlots; s++ {
 			if r.Intn(2) == 0 {
 				gc.Storage[common.BigToHash(big.NewInt(int64(s)))] = common.BigToHash(big.NewInt(int64(1 + r.Intn(2))))
